@@ -300,6 +300,8 @@ def stage_real_classes(ctx):
         p = pexpect.spawn('cat', encoding=enc, timeout=2, echo=False); p._verif_end = p.sendeof; objs.append(('pty', p, lambda p=p: p.close(force=True)))
         s = pxssh.pxssh(encoding=enc, timeout=2); pexpect.spawn._spawn(s, 'cat'); s.setecho(False); s._verif_end = s.sendeof; objs.append(('pxssh', s, lambda s=s: s.close(force=True)))
         r, w = os.pipe(); f = fdpexpect.fdspawn(r, encoding=enc, timeout=2); f._verif_end = (lambda w=w: os.close(w)); objs.append(('fdspawn', f, lambda f=f: f.close()))
+        r2, w2 = os.pipe(); f2 = fdpexpect.fdspawn(r2, encoding=enc, timeout=2, use_poll=True); f2._verif_end = (lambda w2=w2: os.close(w2)); objs.append(('fdspawn-poll', f2, lambda f2=f2: f2.close()))
+        p2 = pexpect.spawn('cat', encoding=enc, timeout=2, echo=False, use_poll=True); p2._verif_end = p2.sendeof; objs.append(('pty-poll', p2, lambda p2=p2: p2.close(force=True)))
         a, b = socket.socketpair(); k = socket_pexpect.SocketSpawn(a, encoding=enc, timeout=2); k._verif_end = b.close; objs.append(('SocketSpawn', k, lambda k=k: k.close()))
         q = popen_spawn.PopenSpawn(['cat'], encoding=enc, timeout=2); q._verif_end = q.sendeof; objs.append(('PopenSpawn', q, lambda q=q: (q.proc.stdout.close(), q.proc.wait())))
         for label, obj, fin in objs:
